@@ -296,6 +296,24 @@ def _adm_spec(eng, st, s, u, m):
     return _adm(to_z3(s), to_z3(u), to_z3(m))
 
 
+def _has_ite(t):
+    if not z3.is_app(t):
+        return False
+    if t.decl().kind() == z3.Z3_OP_ITE:
+        return True
+    return any(_has_ite(c) for c in t.children())
+
+
+def _plain(st, v, real=False):
+    """z3 term for v; a term containing an if-then-else (not allowed inside quantifier patterns) is named by a fresh constant equal to it"""
+    t = to_z3(to_real(v)) if real else to_z3(v)
+    if _has_ite(t):
+        c = z3.Const(fresh_name("arg"), t.sort())
+        st.assume(c == t)
+        return c
+    return t
+
+
 @spec("PELT_THEORY")
 def _pelt_theory(eng, st, tok, m, beta, n):
     """Bellman characterisation of PF (the definition of the optimal-partitioning value; L_bellman relates it to the
@@ -303,8 +321,8 @@ def _pelt_theory(eng, st, tok, m, beta, n):
     allt = isinstance(tok, str) and tok == "all"
     tok = z3.Int("tok!pt") if allt else to_z3(tok)
     tv = [tok] if allt else []
-    m, n = to_z3(m), to_z3(n)
-    beta = to_z3(to_real(beta))
+    m, n = _plain(st, m), _plain(st, n)
+    beta = _plain(st, beta, real=True)
     C = _AGG[2]
     F = lambda u: _PF(tok, m, beta, u)
     A = lambda u: _PA(tok, m, beta, u)
@@ -325,8 +343,8 @@ def _split_ineq(eng, st, tok, m, kappa, n):
     """C(a,b)+C(b,c)+kappa <= C(a,c) for segments of admissible length (the side condition of C02)."""
     allt = isinstance(tok, str) and tok == "all"
     tok = z3.Int("tok!si") if allt else to_z3(tok)
-    m, n = to_z3(m), to_z3(n)
-    kappa = to_z3(to_real(kappa))
+    m, n = _plain(st, m), _plain(st, n)
+    kappa = _plain(st, kappa, real=True)
     C = _AGG[2]
     a, b, c = z3.Ints("a!si b!si c!si")
     return z3.ForAll(([tok] if allt else []) + [a, b, c], z3.Implies(z3.And(0 <= a, a + m <= b, b + m <= c, c <= n), C(tok, a, b) + C(tok, b, c) + kappa <= C(tok, a, c)),
@@ -1019,3 +1037,32 @@ def _greedy_mono_proof():
 
 
 LEMMA_PROOFS["L_greedy_mono"] = _greedy_mono_proof
+
+
+# ----------------------------------------------------------------------------- C15: a larger penalty never increases the number of changepoints PELT reports
+# Lemma over the posts of two runs of run_pelt on the same cost with penalties b1 < b2 (same n, m): run i returns K_i changepoints with
+# F_i = PF_{b_i}(n) = S_i + b_i K_i, where S_i is the sum of the segment costs of its segmentation (post total_cost with L_segtot_split), and by
+# L_bellman F_i <= S_j + b_i K_j for the OTHER run's segmentation (admissible: same n, m). Adding the two inequalities: (b2 - b1)(K2 - K1) <= 0.
+def _segtot_split_proof():
+    """SEGTOT_b(q) == SSEG(q) + b q: the penalised total of the first q segments is the sum of their costs plus q penalties (induction on q)."""
+    T = z3.Function("T!P", _I, _R)       # SEGTOT(q)
+    S = z3.Function("S!P", _I, _R)       # sum of the first q segment costs
+    c = z3.Function("c!P", _I, _R)       # cost of segment q
+    b = z3.Real("b!P")
+    q, i = z3.Ints("q!P i!P")
+    hyp = [T(0) == 0, S(0) == 0, z3.ForAll([q], z3.Implies(0 <= q, z3.And(T(q + 1) == T(q) + c(q) + b, S(q + 1) == S(q) + c(q))), patterns=[T(q + 1)])]
+    return [(".base", hyp, T(0) == S(0) + b * 0), (".step", hyp + [0 <= i, T(i) == S(i) + b * z3.ToReal(i)], T(i + 1) == S(i + 1) + b * z3.ToReal(i + 1))]
+
+
+def _pelt_pen_mono_proof():
+    b1, b2, S1, S2, F1, F2 = z3.Reals("b1!M b2!M S1!M S2!M F1!M F2!M")
+    K1, K2 = z3.Ints("K1!M K2!M")
+    k1, k2 = z3.ToReal(K1), z3.ToReal(K2)
+    hyp = [b1 < b2, K1 >= 0, K2 >= 0,
+           F1 == S1 + b1 * k1, F2 == S2 + b2 * k2,          # total_cost of each run (final score == cost of exactly the returned segmentation)
+           F1 <= S2 + b1 * k2, F2 <= S1 + b2 * k1]          # L_bellman: the optimum under b_i is at most the cost of the other run's segmentation
+    return [("", hyp, K2 <= K1)]
+
+
+LEMMA_PROOFS["L_segtot_split"] = _segtot_split_proof
+LEMMA_PROOFS["L_pelt_pen_mono"] = _pelt_pen_mono_proof
